@@ -134,7 +134,15 @@ def coupled_state(F):
                 return "FALSE"
             return None
 
-        ps = normal_paths(paths(fn["body"], classify))
+        def branch_label(node):
+            c = peel(node["cond"])
+            if c.get("k") == "Binary" and c["op"] == "<" and (place_path(c["a"]) or "").endswith("curr_idx"):
+                b = peel(c["b"])
+                if b.get("k") == "MethodCall" and b["method"] == "len" and (place_path(b["recv"]) or "").endswith("metadata"):
+                    return (None, "PASTEND")
+            return None
+
+        ps = normal_paths(paths(fn["body"], classify, branch_label=branch_label))
         if not any("MOVE" in ev for ev, _ in ps):
             continue
         n += 1
@@ -146,6 +154,9 @@ def coupled_state(F):
                 r.ob(True)
                 continue  # reports exhaustion: no current function to be in sync with
             last_move = max(i for i, e in enumerate(ev) if e == "MOVE")
+            if "PASTEND" in ev[last_move + 1:]:
+                r.ob(True)
+                continue  # cursor is past the last function: there is nothing to be in sync with
             ok = any(e == "SYNC" for e in ev[last_move + 1:])
             r.ob(ok, {"fn": fn["path"], "path": list(ev)})
             if not ok:
